@@ -47,8 +47,13 @@ MAGIC = 0x514649FB
 
 
 # ----------------------------------------------------------------------------- content helpers
-def plain_cluster(seed: int, cs: int) -> bytes:
-    """compressible but position-dependent plaintext of one cluster"""
+def plain_cluster(seed: int, cs: int, hard: bool = False) -> bytes:
+    """compressible but position-dependent plaintext of one cluster (hard: barely compressible — the deflate stream is
+    almost a cluster long and can need one sector more than cluster_size / 512)"""
+    if hard:
+        import random
+        pad = min(24 + seed % 700, cs // 8)
+        return random.Random(seed * 7919 + cs).randbytes(cs - pad) + bytes(pad)
     base = bytes(((k // 3) * 5 + seed) & 0xFF for k in range(96))
     buf = bytearray((base * (cs // 96 + 1))[:cs])
     for b in range(0, cs, 512):
@@ -87,7 +92,7 @@ def layout(case):
         t = c["t"]
         bm = None
         if t == "comp":
-            plain = plain_cluster(c["seed"], cs)
+            plain = plain_cluster(c["seed"], cs, c.get("hard", False))
             comp = deflate_raw(plain)
             coff = c["coffset"]
             nb = (coff + len(comp) - 1) // 512 - coff // 512 + 1
@@ -193,7 +198,7 @@ def intent_bytes(case, off, n, files):
         if c is None:
             out.append(unalloc(pos, k))
         elif c["t"] == "comp":
-            out.append(plain_cluster(c["seed"], cs)[within:within + k])
+            out.append(plain_cluster(c["seed"], cs, c.get("hard", False))[within:within + k])
         elif ext:
             s = within // scs
             if (c["zero"] >> s) & 1:
@@ -247,7 +252,8 @@ class Alloc:
             self.low += n
         else:
             base = self.far.setdefault(where, {"4g": (1 << 32) - 2 * self.cs, "4g+": (1 << 32) + 5 * self.cs,
-                                               "16t": (1 << 44) + 3 * self.cs}[where] // self.cs)
+                                               "16t": (1 << 44) + 3 * self.cs,
+                                               "32p": (1 << 55) - 2 * self.cs}[where] // self.cs)
             base += gap
             o = base * self.cs
             self.far[where] = base + n
@@ -327,7 +333,7 @@ def gen_case(rng, tier, bigbuf=False):
                 chosen.append(g)
         chosen.sort()
     # placement
-    place = rng.weighted([("asc", 3), ("desc", 2), ("random", 3), ("gaps", 2), ("4g", 1), ("4g+", 1), ("16t", 1)])
+    place = rng.weighted([("asc", 3), ("desc", 2), ("random", 3), ("gaps", 2), ("4g", 1), ("4g+", 1), ("16t", 1), ("32p", 1)])
     meta_place = rng.weighted([("low", 5), ("4g+", 1), ("16t", 1)])
     al = Alloc(cs, 1)
     dal = Alloc(cs, 1)         # allocator of the external data file
@@ -349,7 +355,9 @@ def gen_case(rng, tier, bigbuf=False):
         order.reverse()
     elif place in ("random", "gaps"):
         rng.shuffle(order)
-    where = place if place in ("4g", "4g+", "16t") else "low"
+    where = place if place in ("4g", "4g+", "16t", "32p") else "low"     # 32p: around 2^55 (host offsets have 56 bits)
+    pack = rng.chance(0.5)       # compressed clusters written back to back at byte granularity, as qemu-img convert -c does
+    pack_at = None
     types_std = [("normal", 6), ("zero_plain", 1), ("zero_alloc", 1), ("comp", 2)]
     clusters = {}
     a = dal if datafile else al
@@ -370,12 +378,23 @@ def gen_case(rng, tier, bigbuf=False):
         if t == "comp":
             e["seed"] = rng.randrange(1 << 16)
             # compressed data lives in the image file at any byte offset (often straddling 512-byte sectors)
-            base = al.take(2, where=where if where != "4g" else "4g+", gap=gap)
-            clen = len(deflate_raw(plain_cluster(e["seed"], cs)))
-            r = rng.weighted([(0, 1), (rng.randrange(0, 512), 2), (rng.randrange(0, max(1, cs // 4)), 2)])
+            if rng.chance(0.25):
+                e["hard"] = True
+            clen = len(deflate_raw(plain_cluster(e["seed"], cs, e.get("hard", False))))
+            if clen >= cs:
+                e.pop("hard", None)
+                clen = len(deflate_raw(plain_cluster(e["seed"], cs)))
             # the descriptor has cluster_bits - 8 bits for the sector count: the stream must fit
             room = 512 * (1 << (cb - 8)) - clen
-            e["coffset"] = base + (r if r % 512 <= room else r - r % 512 + rng.randrange(0, room + 1))
+            if pack and pack_at is not None and pack_at[0] + clen <= pack_at[1] and pack_at[0] % 512 <= room:
+                e["coffset"] = pack_at[0]
+                pack_at = (pack_at[0] + clen, pack_at[1])
+            else:
+                cwhere = {"4g": "4g+", "32p": "16t"}.get(where, where)          # (compressed offsets have fewer bits)
+                base = al.take(2, where=cwhere, gap=gap)
+                r = rng.weighted([(0, 1), (rng.randrange(0, 512), 2), (rng.randrange(0, max(1, cs // 4)), 2)])
+                e["coffset"] = base + (r if r % 512 <= room else r - r % 512 + rng.randrange(0, room + 1))
+                pack_at = (e["coffset"] + clen, base + 2 * cs)
         elif ext:
             e["t"] = "ext"
             hostless = rng.chance(0.15)
@@ -739,5 +758,6 @@ class BigBufSuite(Qcow2Suite):
 
 SUITES = {"qcow2": Qcow2Suite(), "bigbuf": BigBufSuite()}
 
-from harness.readers import under_O  # noqa: E402
+from harness.readers import under_O, under_debug  # noqa: E402
 SUITES["qcow2_pyO"] = under_O(SUITES["qcow2"])
+SUITES["qcow2_dbg"] = under_debug(SUITES["qcow2"])
